@@ -37,7 +37,7 @@ func (i *inspect) inspectTable(ctx context.Context, t *schema.Table) error {
 
 // columns queries and appends the columns of the given table.
 func (i *inspect) columns(ctx context.Context, t *schema.Table) error {
-	rows, err := i.QueryContext(ctx, fmt.Sprintf(columnsQuery, t.Name))
+	rows, err := i.QueryContext(ctx, fmt.Sprintf(columnsQuery, quoteArg(t.Name)))
 	if err != nil {
 		return fmt.Errorf("sqlite: querying %q columns: %w", t.Name, err)
 	}
@@ -114,7 +114,7 @@ func (i *inspect) addColumn(t *schema.Table, rows *sql.Rows) error {
 
 // indexes queries and appends the indexes of the given table.
 func (i *inspect) indexes(ctx context.Context, t *schema.Table) error {
-	rows, err := i.QueryContext(ctx, fmt.Sprintf(indexesQuery, t.Name))
+	rows, err := i.QueryContext(ctx, fmt.Sprintf(indexesQuery, quoteArg(t.Name)))
 	if err != nil {
 		return fmt.Errorf("sqlite: querying %q indexes: %w", t.Name, err)
 	}
@@ -179,7 +179,7 @@ var (
 func (i *inspect) indexInfo(ctx context.Context, t *schema.Table, idx *schema.Index) error {
 	var (
 		hasExpr   bool
-		rows, err = i.QueryContext(ctx, fmt.Sprintf(indexColumnsQuery, idx.Name))
+		rows, err = i.QueryContext(ctx, fmt.Sprintf(indexColumnsQuery, quoteArg(idx.Name)))
 	)
 	if err != nil {
 		return fmt.Errorf("sqlite: querying %q indexes: %w", t.Name, err)
@@ -240,7 +240,7 @@ func (i *inspect) indexInfo(ctx context.Context, t *schema.Table, idx *schema.In
 
 // fks queries and appends the foreign-keys of the given table.
 func (i *inspect) fks(ctx context.Context, t *schema.Table) error {
-	rows, err := i.QueryContext(ctx, fmt.Sprintf(fksQuery, t.Name))
+	rows, err := i.QueryContext(ctx, fmt.Sprintf(fksQuery, quoteArg(t.Name)))
 	if err != nil {
 		return fmt.Errorf("sqlite: querying %q foreign-keys: %w", t.Name, err)
 	}
@@ -660,6 +660,12 @@ func quoted(prefix string) bool {
 		}
 	}
 	return q != 0
+}
+
+// quoteArg escapes a name that is formatted into a single-quoted
+// argument of a table-valued pragma function, e.g. pragma_table_xinfo('%s').
+func quoteArg(name string) string {
+	return strings.ReplaceAll(name, "'", "''")
 }
 
 // scanExpr scans the expression string (wrapped with parens)
